@@ -13,6 +13,7 @@ import (
 	"verif/internal/cv"
 	"verif/internal/fw"
 	"verif/internal/oracle"
+	"verif/internal/svgpath"
 )
 
 var opNames = []string{"And", "Or", "Xor", "Not", "DivideBy"}
@@ -250,6 +251,77 @@ func sharedEdgeFamily(name string, L []oracle.Pt, T [][]oracle.Pt, eps, delta fl
 	}
 }
 
+// hardCases: operand pairs of one to three lattice triangles each on which the unchanged
+// library panicked or filled wrongly; they were found by a random search over such pairs (a
+// discovery aid: the search itself decides nothing) and are kept as a fixed menu that is
+// enumerated completely: every pair x the 8 symmetries of the square x both operand orders x the
+// 5 operations.
+var hardCases = [][2]string{
+	{"M1 1L3 0L2 0z", "M2 0L1 3L0 2zM2 2L0 3L1 0z"},
+	{"M2 0L1 2L1 1zM1 0L0 3L2 2zM2 0L2 2L0 2z", "M3 1L1 2L3 0zM1 1L3 0L1 2z"},
+	{"M2 1L0 1L0 2zM0 1L2 2L1 2z", "M0 2L1 2L1 0zM2 1L0 2L2 2zM0 2L2 1L2 0z"},
+	{"M1 4L0 4L4 3zM4 0L0 2L2 0z", "M3 0L4 1L3 2zM3 0L4 1L0 0z"},
+	{"M4 1L3 0L2 2zM2 1L4 2L3 1z", "M0 4L4 2L2 0zM4 0L4 2L2 4z"},
+	{"M1 0L3 2L1 1zM3 2L1 3L2 0zM1 3L2 1L3 1z", "M2 1L3 3L1 2zM2 1L0 0L0 2zM1 0L1 1L2 2z"},
+	{"M4 1L0 0L0 3zM4 0L2 4L3 3z", "M3 1L2 4L4 2zM4 0L0 1L1 0zM4 4L0 0L1 3z"},
+	{"M2 2L1 0L2 0zM1 2L2 1L2 0z", "M1 0L0 2L2 2zM2 2L0 1L1 0zM2 0L1 1L1 2z"},
+	{"M0 1L1 0L1 2zM1 0L2 1L1 1zM1 1L2 1L0 0z", "M1 2L0 2L1 0zM2 0L0 2L1 0zM1 2L2 1L1 0z"},
+	{"M1 1L2 0L0 0zM1 2L0 1L1 0z", "M0 2L0 0L1 0zM2 1L0 0L2 0zM1 0L0 0L0 2z"},
+}
+
+func hardCasesFamily() fw.Family {
+	sym := func(k int, p oracle.Pt) oracle.Pt {
+		// the 8 symmetries of the square [0,4]^2
+		x, y := p.X, p.Y
+		if k&4 != 0 {
+			x, y = y, x
+		}
+		if k&1 != 0 {
+			x = 4 - x
+		}
+		if k&2 != 0 {
+			y = 4 - y
+		}
+		return oracle.Pt{X: x, Y: y}
+	}
+	data := func(i int64) ([]float64, []float64) {
+		g := oracle.Digits(i, len(hardCases), 8, 2)
+		conv := func(d string) []float64 {
+			sps, err := svgpath.Parse(d)
+			if err != nil {
+				panic(err)
+			}
+			var cs [][]oracle.Pt
+			for _, sp := range sps {
+				c := []oracle.Pt{sym(g[1], sp.Start)}
+				for _, sg := range sp.Segs {
+					if sg.Kind == oracle.CmdLine {
+						c = append(c, sym(g[1], sg.P1))
+					}
+				}
+				cs = append(cs, c)
+			}
+			return oracle.ClosedData(cs...)
+		}
+		pd, qd := conv(hardCases[g[0]][0]), conv(hardCases[g[0]][1])
+		if g[2] == 1 {
+			pd, qd = qd, pd
+		}
+		return pd, qd
+	}
+	set, unset := withEps(1e-8)
+	return fw.Family{Name: "hard cases: operand pairs of 1-3 lattice triangles x 8 symmetries x both operand orders", N: int64(len(hardCases)) * 16,
+		Setup: set, Teardown: unset,
+		Check: func(i int64, r *fw.R) {
+			pd, qd := data(i)
+			checkPair(r, pd, qd, 1e-6, 1e-3, 1, false)
+		},
+		Desc: func(i int64) string {
+			pd, qd := data(i)
+			return fmt.Sprintf("P=%s Q=%s eps=1e-08", oracle.Fmt(pd), oracle.Fmt(qd))
+		}}
+}
+
 func single(cs [][]oracle.Pt) [][][]oracle.Pt {
 	out := make([][][]oracle.Pt, len(cs))
 	for i, c := range cs {
@@ -362,8 +434,9 @@ func families(tier string) []fw.Family {
 	apartShapes = append(apartShapes, c02.Nestings(3)...)
 	apart := shift(apartShapes, 10, 0)
 	fewTris := tri3r[:24]
+	fs0 := hardCasesFamily()
 	var fs []fw.Family
-	fs = append(fs, curvedFamily())
+	fs = append(fs, fs0, curvedFamily())
 	fs = append(fs,
 		pairFamily("tri(L3)/rot (first 24) x shapes with holes lying 10 to the right", fewTris, apart, 1, oracle.Pt{}, 1e-8, 1e-6, false),
 		pairFamily("shapes with holes lying 10 to the right x tri(L3)/rot (first 24)", apart, fewTris, 1, oracle.Pt{}, 1e-8, 1e-6, false),
